@@ -53,6 +53,9 @@ REQS = {
     'deleteStudy': ('DeleteStudy', {'op': 'deleteStudy'}),
     'mdStudy': ('UpdateMetadata', {'op': 'updateMetadata', 'us': [{'t': None, 'kv': ['', 'k', 'v']}]}),
     'mdTrial1': ('UpdateMetadata', {'op': 'updateMetadata', 'us': [{'t': 1, 'kv': ['', 'k', 'v']}]}),
+    'mdTrial3': ('UpdateMetadata', {'op': 'updateMetadata', 'us': [{'t': 3, 'kv': ['', 'k', 'v']}]}),      # trial 3 of prefix A waits in the REQUESTED pool
+    'mdStudyK0': ('UpdateMetadata', {'op': 'updateMetadata', 'us': [{'t': None, 'kv': ['', 'k0', 'v1']}]}),   # overwrites the key prefix A created
+    'delete3': ('DeleteTrial', {'op': 'deleteTrial', 'id': 3}),
     'mdBoth': ('UpdateMetadata', {'op': 'updateMetadata', 'us': [{'t': None, 'kv': ['', 'k', 'w']}, {'t': 1, 'kv': ['', 'k', 'w']}]}),
     'setInactive': ('SetStudyState', {'op': 'setStudyState', 'state': 'INACTIVE'}),
     'setActive': ('SetStudyState', {'op': 'setStudyState', 'state': 'ACTIVE'}),
@@ -192,7 +195,7 @@ def pairs_for(tier, rng):
   for pname in PREFIXES:
     for a, b in allpairs:
       # requests on trial 1/2 need the prefix with those trials
-      needs_trials = any(x in (a, b) for x in ('mdMissing', 'suggestPool', 'complete1', 'complete1inf', 'complete2', 'measure1', 'measure1b', 'stop1', 'delete1', 'mdTrial1', 'mdBoth', 'earlyStop1', 'suggestOwn', 'suggestMd'))
+      needs_trials = any(x in (a, b) for x in ('mdMissing', 'suggestPool', 'mdTrial3', 'delete3', 'mdStudyK0', 'complete1', 'complete1inf', 'complete2', 'measure1', 'measure1b', 'stop1', 'delete1', 'mdTrial1', 'mdBoth', 'earlyStop1', 'suggestOwn', 'suggestMd'))
       if needs_trials and pname == 'B':
         continue
       tasks.append((pname, a, b))
@@ -229,7 +232,7 @@ def run(c):
   # own datastore traffic (GetStudy, ListTrials, UpdateMetadata via the policy supporter) is interleaved too
   hosted_pairs = [('suggestNew', 'mdStudy'), ('suggestNew', 'mdBoth'), ('suggestNew', 'complete1'), ('suggestNew', 'suggestNew2'),
                   ('suggestOwn', 'mdBoth'), ('suggestNew', 'createTrial2'), ('suggestNew', 'setInactive'), ('suggestNew', 'delete1'),
-                  ('suggestNew', 'mdMissing'), ('suggestPool', 'complete2')]
+                  ('suggestNew', 'mdMissing'), ('suggestPool', 'complete2'), ('suggestNew', 'mdStudyK0'), ('suggestPool', 'mdTrial3')]
   if c.tier == 'thorough':
     hosted_pairs += [(a, b) for a in ('suggestNew', 'suggestOwn', 'suggestPool', 'suggestMd') for b in REQS if (a, b) not in hosted_pairs and b not in ('earlyStop1',)]
   jobs += [('hosted:ram', 'A', a, b, limit) for a, b in hosted_pairs]
